@@ -80,8 +80,9 @@ func (m *Machine) external(fn *ssa.Function, args []Value) Value {
 		m.usedExt[name] = true
 		return f(m, args)
 	}
-	// a synthetic wrapper / bound method of a module function
-	if fn.Synthetic != "" && fn.Blocks != nil {
+	// a synthetic wrapper / bound method / generic instance OF A MODULE FUNCTION is interpreted; an instance of a library generic
+	// (slices.Sorted, maps.Keys, cmp.Or ...) is not: library code is only ever entered through a summary
+	if fn.Synthetic != "" && fn.Blocks != nil && (m.P.InModule(fn) || interpretableLibraryGeneric(name)) {
 		// wrappers for embedded-field promotion etc. are interpreted
 		fr := &frame{fn: fn, env: map[ssa.Value]Value{}, pos: fn.Pos()}
 		for i, p := range fn.Params {
@@ -106,6 +107,19 @@ func (m *Machine) external(fn *ssa.Function, args []Value) Value {
 	}
 	return t
 }
+
+// interpretableLibraryGeneric lists library generics whose bodies are plain value code the interpreter executes exactly.
+func interpretableLibraryGeneric(name string) bool {
+	switch name {
+	case "cmp.Or", "cmp.Compare", "cmp.Less", "slices.Contains", "slices.Index", "slices.Reverse", "slices.Equal", "slices.Clone", "slices.ContainsFunc", "slices.IndexFunc":
+		return true
+	}
+	return false
+}
+
+// Seq is the abstract value of an iter.Seq produced by maps.Keys / maps.Values / slices.Values: the elements in the
+// interpreter's (insertion) order. Whether that order may reach the output is B-DET's business, as for range-over-map.
+type Seq struct{ Vals []Value }
 
 func strArg(m *Machine, v Value) Str {
 	switch x := v.(type) {
@@ -466,6 +480,47 @@ func externals() map[string]ExtFn {
 		panic(m.undecided("unicode.ToLower on %T", a[0]))
 	}
 	// ---- sort
+	e["maps.Keys"] = func(m *Machine, a []Value) Value {
+		mp, _ := a[0].(*Map)
+		if mp == nil || mp.Nil {
+			return Seq{}
+		}
+		return Seq{Vals: append([]Value{}, mp.Keys...)}
+	}
+	e["maps.Values"] = func(m *Machine, a []Value) Value {
+		mp, _ := a[0].(*Map)
+		if mp == nil || mp.Nil {
+			return Seq{}
+		}
+		return Seq{Vals: append([]Value{}, mp.Vals...)}
+	}
+	e["slices.Values"] = func(m *Machine, a []Value) Value {
+		s, _ := a[0].(Slice)
+		return Seq{Vals: SliceValues(s)}
+	}
+	collect := func(m *Machine, fn string, a []Value, sorted bool) Value {
+		sq, ok := a[0].(Seq)
+		if !ok {
+			panic(m.undecided("%s on %T (only sequences built by maps.Keys/Values, slices.Values are modelled)", fn, a[0]))
+		}
+		vs := append([]Value{}, sq.Vals...)
+		var et types.Type = types.Typ[types.String]
+		if sorted {
+			for _, v := range vs {
+				if _, isStr := v.(Str); !isStr {
+					panic(m.undecided("%s of non-string elements", fn))
+				}
+			}
+			m.sortStrs(vs)
+		} else if len(vs) > 0 {
+			if _, isStr := vs[0].(Str); !isStr {
+				panic(m.undecided("%s of non-string elements (element type unknown to the model)", fn))
+			}
+		}
+		return m.NewSliceOf(et, vs...)
+	}
+	e["slices.Sorted"] = func(m *Machine, a []Value) Value { return collect(m, "slices.Sorted", a, true) }
+	e["slices.Collect"] = func(m *Machine, a []Value) Value { return collect(m, "slices.Collect", a, false) }
 	e["sort.Strings"] = func(m *Machine, a []Value) Value {
 		s := a[0].(Slice)
 		if s.Back != nil {
